@@ -9,6 +9,8 @@ From TS Require Proofs.C10Lex Proofs.C10_TS Proofs.C10_TSFile Proofs.C10_KT Proo
                 Proofs.C10_SW Proofs.C10_SWFile Proofs.C10_PY Proofs.C10_PYFile Proofs.C10_KW Proofs.C10.
 From TS Require Import Spec.C10TsGrammar.
 From TS Require Proofs.C10_TSGrammarTok Proofs.C10_TSGrammarParse Proofs.C10_TSGrammar Proofs.C10_TSGrammarFile.
+From TS Require Import Model.MultiFile Spec.C10MultiSpec.
+From TS Require Model.Writer Proofs.C10Multi Proofs.C10MultiWitness.
 
 (* ---------------------------------------------------------------- the lexers *)
 (* the lexer never looks below the bracket stack it started with: a text that is balanced on its own
@@ -313,3 +315,156 @@ Theorem C10_grammar_typescript_witness :
   c10_ts_recognise (Proofs.C10_TSGrammarFile.g_subst_first 61 58 Proofs.C10_TSGrammarFile.g_text) = None.
 Proof. exact Proofs.C10_TSGrammarFile.grammar_witness. Qed.
 Print Assumptions C10_grammar_typescript_witness.
+(* ================================================================ MULTI-FILE (folder output, `-d`) MODE
+   Every crate gets its own file, written by the multi-file generators of Model/MultiFile.v.  They differ from the
+   single-file generators by (a) what is printed from the WORKSPACE: TypeScript's `import { A, B } from "./crate";`
+   lines, Kotlin's `import <package>.<crate>.<A>` lines and its per-crate `package <package>.<crate>` line, rendered from
+   the import map of the crate (sorted map crate -> sorted set of type names) and the crate's name; (b) the printer state,
+   which is threaded from one crate to the next and never cleared (TypeScript: the property names collected for the
+   Date reviver; Go: the import paths; Python: imports, TypeVars, custom translations; Swift: "CodableVoid needed").
+   Domain: that of the single-file theorems for the crate's data, plus (Spec/C10MultiSpec.v, decidable)
+     c10_crate_ok c     the crate name is made of [A-Za-z0-9_-];
+     c10_imports_ok im  every crate name of the import map is c10_crate_ok, every imported type name identifier-shaped.
+   Excluded real inputs: a crate directory named with a quote, backslash, bracket, slash, dot, blank or non-ASCII letter,
+   an imported type whose generated name is not identifier-shaped.  C10_multi_imports_from_type_table /
+   C10_multi_plan_in_domain derive c10_imports_ok from the type table of the workspace. *)
+
+(* TypeScript, one crate's file, from ANY printer state the previous crates may have left whose collected property
+   names are printable between double quotes (c10_ts_state_ok; the empty initial state is): header, import lines, every
+   declaration, the reviver / replacer trailer are balanced, and the state handed to the next crate is printable again *)
+Theorem C10_lex_multi_typescript :
+  forall (uc : unicode) (cfg : ts_config) (st : ts_state) (im : scoped) (pd : parsed) (text : str) (st' : ts_state),
+    unicode_ok uc -> Proofs.C10_TSFile.c10_ts_cfg_ok cfg = true -> dom_C10 CTS pd = true -> c10_imports_ok im = true ->
+    Proofs.C10_TSFile.c10_ts_state_ok st = true ->
+    ts_generate_multi uc cfg st im pd = Ok (text, st') ->
+    good_C10_lex CTS text = true /\ Proofs.C10_TSFile.c10_ts_state_ok st' = true.
+Proof. exact Proofs.C10Multi.lex_multi_typescript. Qed.
+Print Assumptions C10_lex_multi_typescript.
+
+(* Kotlin (stateless), one crate's file: version comment, `package <package>.<crate>`, the fixed imports, one import line
+   per imported type, every declaration *)
+Theorem C10_lex_multi_kotlin :
+  forall (uc : unicode) (cfg : kt_config) (c : str) (im : scoped) (pd : parsed) (text : str),
+    Proofs.C10_KT.c10_kt_cfg_ok cfg = true -> dom_C10 CKT pd = true -> c10_crate_ok c = true -> c10_imports_ok im = true ->
+    kt_generate_multi uc cfg c im pd = Ok text -> good_C10_lex CKT text = true.
+Proof. exact Proofs.C10Multi.lex_multi_kotlin. Qed.
+Print Assumptions C10_lex_multi_kotlin.
+
+(* Swift, one crate's file (no import lines, no CodableVoid trailer in this mode), from any printer state ... *)
+Theorem C10_lex_multi_swift :
+  forall (uc : unicode) (cfg : sw_config) (st : sw_state) (pd : parsed) (text : str) (st' : sw_state),
+    Proofs.C10_SWFile.c10_sw_cfg_ok cfg = true -> dom_C10 CSW pd = true ->
+    sw_generate_multi uc cfg st pd = Ok (text, st') -> good_C10_lex CSW text = true.
+Proof. exact Proofs.C10Multi.lex_multi_swift. Qed.
+Print Assumptions C10_lex_multi_swift.
+
+(* ... and Codable.swift, the extra output file post_generation writes when some file needed CodableVoid *)
+Theorem C10_lex_multi_swift_codable :
+  forall (cfg : sw_config), Proofs.C10_SWFile.c10_sw_cfg_ok cfg = true -> good_C10_lex CSW (sw_codable_contents cfg) = true.
+Proof. exact Proofs.C10Multi.sw_codable_contents_balanced. Qed.
+Print Assumptions C10_lex_multi_swift_codable.
+
+(* Go, one crate's file, from any table of import paths printable between double quotes (go_inv; the empty one is): the
+   import block printed is that of the state reached after the crate's last item, which still holds the paths the
+   previous crates registered *)
+Theorem C10_lex_multi_go :
+  forall (uc : unicode) (cfg : go_config) (st : go_state) (pd : parsed) (text : str) (st' : go_state),
+    unicode_ok uc -> Proofs.C10_GOFile.c10_go_cfg_ok cfg = true -> dom_C10 CGO pd = true -> Proofs.C10_GOFile.go_inv st ->
+    go_generate_multi uc cfg st pd = Ok (text, st') -> good_C10_lex CGO text = true /\ Proofs.C10_GOFile.go_inv st'.
+Proof. exact Proofs.C10Multi.lex_multi_go. Qed.
+Print Assumptions C10_lex_multi_go.
+
+(* Python, one crate's file, from any printer state whose import table holds neutral tokens and whose TypeVars are
+   identifier-shaped (py_inv; the empty state is): header docstring, the import lines, TypeVars and helper functions of
+   the state reached after the last item (previous crates included), every declaration *)
+Theorem C10_lex_multi_python :
+  forall (uc : unicode) (cfg : py_config) (st : py_state) (pd : parsed) (text : str) (st' : py_state),
+    unicode_ok uc -> Proofs.C10_PYFile.c10_py_cfg_ok cfg = true -> dom_C10 CPY pd = true -> Proofs.C10_PYFile.py_inv st ->
+    py_generate_multi uc cfg st pd = Ok (text, st') -> good_C10_lex CPY text = true /\ Proofs.C10_PYFile.py_inv st'.
+Proof. exact Proofs.C10Multi.lex_multi_python. Qed.
+Print Assumptions C10_lex_multi_python.
+
+(* THE WHOLE RUN (generate_crates, Model/MultiFile.v: the crates of the plan one after the other, the printer state
+   threaded from the language's initial state, stopping at the first failure): for a plan all of whose entries are in
+   the domain (Proofs.C10Multi.c10_plan_ok: dom_C10 of the data, c10_crate_ok of the crate name, c10_imports_ok of the
+   import map), EVERY file that is generated is balanced - no hypothesis on any intermediate state is left.
+   Scala's generate_types override is one function for both modes (no import lines, no state): its multi-file
+   statement is the run-level one. *)
+Theorem C10_lex_multi_typescript_run :
+  forall (uc : unicode) (cfg : ts_config) (plan : list out_plan) files fin,
+    unicode_ok uc -> Proofs.C10_TSFile.c10_ts_cfg_ok cfg = true -> Proofs.C10Multi.c10_plan_ok CTS plan = true ->
+    generate_crates (fun st (_ : str) im pd => ts_generate_multi uc cfg st im pd) [] plan = (files, fin) ->
+    forall f text, In (f, Model.Writer.Generated text) files -> good_C10_lex CTS text = true.
+Proof. exact Proofs.C10Multi.ts_run_balanced. Qed.
+Print Assumptions C10_lex_multi_typescript_run.
+
+Theorem C10_lex_multi_kotlin_run :
+  forall (uc : unicode) (cfg : kt_config) (plan : list out_plan) files fin,
+    Proofs.C10_KT.c10_kt_cfg_ok cfg = true -> Proofs.C10Multi.c10_plan_ok CKT plan = true ->
+    generate_crates (fun (st : unit) c im pd => Proofs.C10Multi.wrap_unit st (kt_generate_multi uc cfg c im pd)) tt plan = (files, fin) ->
+    forall f text, In (f, Model.Writer.Generated text) files -> good_C10_lex CKT text = true.
+Proof. exact Proofs.C10Multi.kt_run_balanced. Qed.
+Print Assumptions C10_lex_multi_kotlin_run.
+
+Theorem C10_lex_multi_swift_run :
+  forall (uc : unicode) (cfg : sw_config) (plan : list out_plan) files fin,
+    Proofs.C10_SWFile.c10_sw_cfg_ok cfg = true -> Proofs.C10Multi.c10_plan_ok CSW plan = true ->
+    generate_crates (fun st (_ : str) (_ : scoped) pd => sw_generate_multi uc cfg st pd) false plan = (files, fin) ->
+    (forall f text, In (f, Model.Writer.Generated text) files -> good_C10_lex CSW text = true) /\
+    good_C10_lex CSW (sw_codable_contents cfg) = true.
+Proof. exact Proofs.C10Multi.sw_run_balanced. Qed.
+Print Assumptions C10_lex_multi_swift_run.
+
+Theorem C10_lex_multi_go_run :
+  forall (uc : unicode) (cfg : go_config) (plan : list out_plan) files fin,
+    unicode_ok uc -> Proofs.C10_GOFile.c10_go_cfg_ok cfg = true -> Proofs.C10Multi.c10_plan_ok CGO plan = true ->
+    generate_crates (fun st (_ : str) (_ : scoped) pd => go_generate_multi uc cfg st pd) [] plan = (files, fin) ->
+    forall f text, In (f, Model.Writer.Generated text) files -> good_C10_lex CGO text = true.
+Proof. exact Proofs.C10Multi.go_run_balanced. Qed.
+Print Assumptions C10_lex_multi_go_run.
+
+Theorem C10_lex_multi_python_run :
+  forall (uc : unicode) (cfg : py_config) (plan : list out_plan) files fin,
+    unicode_ok uc -> Proofs.C10_PYFile.c10_py_cfg_ok cfg = true -> Proofs.C10Multi.c10_plan_ok CPY plan = true ->
+    generate_crates (fun st (_ : str) (_ : scoped) pd => py_generate_multi uc cfg st pd) py_empty_state plan = (files, fin) ->
+    forall f text, In (f, Model.Writer.Generated text) files -> good_C10_lex CPY text = true.
+Proof. exact Proofs.C10Multi.py_run_balanced. Qed.
+Print Assumptions C10_lex_multi_python_run.
+
+Theorem C10_lex_multi_scala :
+  forall (uc : unicode) (cfg : sc_config) (plan : list out_plan) files fin,
+    Proofs.C10_SC.c10_sc_cfg_ok cfg = true -> Proofs.C10Multi.c10_plan_ok CSC plan = true ->
+    generate_crates (fun (st : unit) (_ : str) (_ : scoped) pd => Proofs.C10Multi.wrap_unit st (sc_generate uc cfg pd)) tt plan = (files, fin) ->
+    forall f text, In (f, Model.Writer.Generated text) files -> good_C10_lex CSC text = true.
+Proof. exact Proofs.C10Multi.sc_run_balanced. Qed.
+Print Assumptions C10_lex_multi_scala.
+
+(* where the import maps come from: used_imports (mod.rs:430) only inserts (crate, name) pairs taken from the type
+   table of the workspace - on the direct path, the fallback path and for a wildcard - so if the table's crate names
+   and type names have the shapes above, every import map has, whatever the import set and its iteration order *)
+Theorem C10_multi_imports_from_type_table :
+  forall (hc_types : crate_types) (own : str) (imports_iter : list imported),
+    c10_crate_types_ok hc_types = true -> c10_imports_ok (used_imports hc_types own imports_iter) = true.
+Proof. exact Proofs.C10Multi.used_imports_ok. Qed.
+Print Assumptions C10_multi_imports_from_type_table.
+
+(* hence the plan multi_plan builds for a workspace whose crates are in dom_C10, with crate names of [A-Za-z0-9_-] and
+   identifier-shaped type tables, is in the domain of the run-level theorems, for every iteration order [hc] of the type
+   table that invents no entry *)
+Theorem C10_multi_plan_in_domain :
+  forall (lg : lang) (l : c10_lang) (hc : crate_types -> crate_types) (cs : list (str * parsed)),
+    (forall m kv, In kv (hc m) -> In kv m) ->
+    forallb (fun c => dom_C10 l (snd c) && c10_crate_ok (fst c) && forallb c10_ident_ok (p_type_names (snd c))) cs = true ->
+    Proofs.C10Multi.c10_plan_ok l (multi_plan lg hc cs) = true.
+Proof. exact Proofs.C10Multi.multi_plan_ok. Qed.
+Print Assumptions C10_multi_plan_in_domain.
+
+(* the hypothesis on the import map cannot be dropped: a crate directory named with a double quote in it ends the TypeScript module string
+   early and the import line is not balanced *)
+Theorem C10_multi_imports_hypothesis_needed :
+  c10_imports_ok [(lit "al""pha", [lit "Item"])] = false /\
+  good_C10_lex CTS (ts_write_imports [(lit "al""pha", [lit "Item"])]) = false /\
+  c10_imports_ok [(lit "alpha", [lit "Item"])] = true /\
+  good_C10_lex CTS (ts_write_imports [(lit "alpha", [lit "Item"])]) = true.
+Proof. exact Proofs.C10MultiWitness.C10_multi_imports_hypothesis_needed. Qed.
+Print Assumptions C10_multi_imports_hypothesis_needed.
